@@ -6,6 +6,7 @@
 //     position, and a PACKED operand access (N lanes from offset) stays inside the operand.
 #include "common.hpp"
 #include "nmtools/array/eval/simd/index/ufunc.hpp"
+#include "nmtools/array/eval/simd/index/matmul.hpp"
 using namespace ob;
 using ix::SIMD;
 
@@ -145,4 +146,40 @@ RD(4, shp<5>, 0) RD(4, shp<9>, 0) RD(4, shp<2 COMMA 5>, 0) RD(4, shp<2 COMMA 5>,
 RD(4, shp<2 COMMA 3 COMMA 5>, 0) RD(4, shp<2 COMMA 3 COMMA 5>, 1) RD(4, shp<2 COMMA 3 COMMA 5>, 2) RD(4, shp<2 COMMA 2 COMMA 9>, 1)
 #ifdef VERIF_THOROUGH
 RD(8, shp<2 COMMA 9>, 0) RD(8, shp<2 COMMA 17>, 1) RD(4, shp<2 COMMA 2 COMMA 2 COMMA 5>, 1) RD(4, shp<2 COMMA 2 COMMA 2 COMMA 5>, 2) RD(8, shp<3 COMMA 2 COMMA 9>, 1)
+#endif
+
+// ---- matmul (out (M,P) = lhs (M,K) x rhs (K,P), rhs stored column-major, i.e. as P rows of K): for every output element the inner
+// steps cover the K products exactly once, lane k of a step pairs lhs[row*K + j] with rhs[col*K + j] for the same j, inside both operands.
+template <size_t N, size_t M, size_t K, size_t P>
+void ob_c12_matmul()
+{
+    const std::array<size_t,2> out{M,P}, lhs{M,K}, rhs{K,P};
+    constexpr size_t INNER = K / N + (K % N ? 1 : 0);
+    constexpr long tag = (long)(M*10000 + K*100 + P);
+    for_<M*P>([&](auto O){
+        constexpr size_t o = O.value, row = o / P, col = o % P;
+        OBLIGE("C12.matmul.inner_steps", (size_t)ix::matmul_simd_inner_size(meta::as_type_v<N>, o, out, lhs, rhs) == INNER, N, tag, o);
+        size_t covered[K] = {};
+        for_<INNER>([&](auto S_){
+            const auto step = ix::matmul_simd_inner(meta::as_type_v<N>, o, S_.value, out, lhs, rhs);
+            const auto [otag, oidx] = nm::at(step, 0); const auto [ltag, lidx] = nm::at(step, 1); const auto [rtag, ridx] = nm::at(step, 2);
+            OBLIGE("C12.matmul.output_position", (size_t)oidx == o, N, tag, o);
+            OBLIGE("C12.matmul.operand_tags_agree", (int)ltag == (int)rtag && ((int)ltag == (int)SIMD::PACKED || ((int)ltag >= 1 && (int)ltag < (int)N)), N, tag, o);
+            const size_t lanes = (int)ltag == (int)SIMD::PACKED ? N : N - (size_t)(int)ltag;
+            OBLIGE("C02.matmul.lhs_inside|C12.matmul.lhs_inside", (size_t)lidx + lanes <= M*K, N, tag, o);
+            OBLIGE("C02.matmul.rhs_inside|C12.matmul.rhs_inside", (size_t)ridx + lanes <= K*P, N, tag, o);
+            for (size_t k = 0; k < lanes; k++) {
+                const size_t j = S_.value * N + k;
+                if (j < K) covered[j]++;
+                OBLIGE("C12.matmul.lhs_lane_is_row_element_j", (size_t)lidx + k == row*K + j, N, tag, o);
+                OBLIGE("C12.matmul.rhs_lane_is_column_element_j", (size_t)ridx + k == col*K + j, N, tag, o);
+            }
+        });
+        for_<K>([&](auto J){ OBLIGE("C12.matmul.every_product_exactly_once", covered[J.value] == 1, N, tag, o, J.value); });
+    });
+}
+#define MMU(N,M,K,P) template void ob_c12_matmul<N,M,K,P>();
+MMU(4,1,1,1) MMU(4,2,3,2) MMU(4,2,4,3) MMU(4,2,5,2) MMU(4,3,9,2)
+#ifdef VERIF_THOROUGH
+MMU(8,2,7,2) MMU(8,2,8,3) MMU(8,2,17,2)
 #endif
